@@ -15,6 +15,7 @@ import ProphyModel.Api
 import ProphyModel.Typing
 import ProphyModel.Copy
 import ProphyModel.Files
+import ProphyModel.Patch
 open Lean Prophy Prophy.Driver
 
 structure DState where
@@ -109,6 +110,38 @@ def opOfJson (j : Json) : Except String Api.Op := do
   | "remove" => do pure (.remove p i (← argOfJson a))
   | "add" => pure (.add p i)
   | x => throw s!"bad op {x}"
+
+def optStr (j : Json) (k : String) : Option String :=
+  match j.getObjVal? k with
+  | .ok (.str s) => some s
+  | _ => none
+
+def pmToJson (m : Patch.PM) : Json :=
+  Json.mkObj [("name", m.name), ("type", m.type),
+    ("bound", match m.bound with | some b => Json.str b | none => Json.null),
+    ("size", match m.size with | some b => Json.str b | none => Json.null),
+    ("greedy", m.greedy), ("optional", m.optional)]
+
+def pmOfJson (j : Json) : Except String Patch.PM := do
+  pure { name := ← getStr j "name", type := ← getStr j "type", bound := optStr j "bound", size := optStr j "size",
+         greedy := (j.getObjVal? "greedy" >>= Json.getBool?).toOption.getD false,
+         optional := (j.getObjVal? "optional" >>= Json.getBool?).toOption.getD false }
+
+def actionOfJson (j : Json) : Except String Patch.Action := do
+  let a ← j.getArr?
+  let w ← a.toList.mapM (·.getStr?)
+  match w with
+  | ["type", m, t] => pure (.type m t)
+  | ["insert", i, n, t] => match i.toInt? with
+    | some k => pure (.insert k n t)
+    | none => throw "bad index"
+  | ["remove", m] => pure (.remove m)
+  | ["dynamic", m, l] => pure (.dynamic m l)
+  | ["greedy", m] => pure (.greedy m)
+  | ["static", m, s] => pure (.static m s)
+  | ["limited", m, l] => pure (.limited m l)
+  | ["rename", m, n] => pure (.rename m n)
+  | _ => throw "bad action"
 
 def handle (st : DState) (j : Json) : Except String (DState × Json) := do
   let op ← getStr j "op"
@@ -216,6 +249,28 @@ def handle (st : DState) (j : Json) : Except String (DState × Json) := do
         ("parsed", Json.arr (r.parsed.map fun g => Json.str (g.dir ++ "/" ++ g.leaf)).toArray)]).toArray)])
     | .error (.notFound l) => pure (st, Json.mkObj [("error", "not found"), ("leaf", l)])
     | .error (.cyclic f) => pure (st, Json.mkObj [("error", "cyclic"), ("leaf", f.leaf)])
+  | "isar_members" =>
+    let dim : Option Patch.Dim := match j.getObjVal? "dim" with
+      | .ok (.obj _) =>
+        let d := (j.getObjVal? "dim").toOption.getD Json.null
+        let size := optStr d "size"
+        some { size := size, size2 := optStr d "size2", sizerName := optStr d "variableSizeFieldName",
+               sizerType := optStr d "variableSizeFieldType",
+               isVariable := (d.getObjVal? "isVariableSize").toOption.isSome,
+               marker := match size with
+                 | some s => decide ((s.splitOn "THIS_IS_VARIABLE_SIZE_ARRAY").length > 1)
+                 | none => false }
+      | _ => none
+    let ms := Patch.isarMembers (← getStr j "name") (← getStr j "type")
+      ((j.getObjVal? "optional" >>= Json.getBool?).toOption.getD false) dim
+      ((j.getObjVal? "message" >>= Json.getBool?).toOption.getD false)
+    pure (st, Json.mkObj [("members", Json.arr (ms.map pmToJson).toArray)])
+  | "patch_apply" =>
+    let ms ← (← getArr j "members").toList.mapM pmOfJson
+    let acts ← (← getArr j "actions").toList.mapM actionOfJson
+    match Patch.applyAll ms acts with
+    | .ok r => pure (st, Json.mkObj [("members", Json.arr (r.map pmToJson).toArray)])
+    | .error _ => pure (st, Json.mkObj [("error", true)])
   | "py_copy" =>
     let ty ← getTy st j
     let v ← valOfJson (← j.getObjVal? "v")
